@@ -98,7 +98,7 @@ def propertyOK (d : D) (unl : List String) (impl : String) : Bool :=
   -- no two loaded wallets share a fingerprint
   && (let fps := (mr.map (fun p => fpOf p.2)).filter (· != "-"); fps.eraseDups.length == fps.length)
 
-def step (d : D) (op impl : String) : D × String × Verdict :=
+def dstep (d : D) (op impl : String) : D × String × Verdict :=
   let ws := op.splitOn " "
   let iw := impl.splitOn " "
   let remember (d' : D) : D := { d' with prevMem := field "mem=" iw, prevDisk := field "disk=" iw }
@@ -115,8 +115,10 @@ def step (d : D) (op impl : String) : D × String × Verdict :=
       let diskS := match loadAll s'.disk with | some m => dumpM true m | none => "ERR"
       let m := (match e with | none => "ok" | some x => "err " ++ errStr x) ++ s!" mem={dumpM false s'.mem} disk={diskS}"
       let d' := remember { d with st := s', everUnloaded := unl }
-      (d', m, if propertyOK d unl impl then .unknown else .fail)
+      -- a line on which the property fails is reported even when the model predicts the same line
+      if propertyOK d unl impl then (d', m, .unknown)
+      else (d', "memory and a freshly started service must agree; model of the current source: " ++ m, .fail)
 
 end Sky.C19
 
-def main : IO Unit := Sky.Drv.loop Sky.C19.step {}
+def main : IO Unit := Sky.Drv.loop Sky.C19.dstep {}
